@@ -569,7 +569,9 @@ func checkC05(c *Ctx) {
 			if !refuses {
 				continue
 			}
-			noQC := func(f Fact) bool { return f.Op == "false" && strings.HasPrefix(f.L, "(hs.SyncInfo).QC(") && strings.HasSuffix(f.L, "#1") }
+			noQC := func(f Fact) bool {
+				return f.Op == "false" && strings.HasPrefix(f.L, "(hs.SyncInfo).QC(") && strings.HasSuffix(f.L, "#1")
+			}
 			ok := branchDominates(fpr, r, noQC)
 			for f := range fpr.At(r) {
 				if noQC(f) {
